@@ -9,12 +9,24 @@ use std::time::Duration;
 
 fn streams(n: usize, both: bool) -> Vec<StreamSpec> {
     let back = if both { vec![Op::Burst(n, 2), Op::Shutdown] } else { vec![Op::Shutdown] };
+    // the writer under test also issues zero-length writes (they must not eat into the window)
+    let mut fwd = Vec::new();
+    for i in 0..n {
+        fwd.push(Op::W(1));
+        if i % 3 == 0 {
+            fwd.push(Op::W(0));
+        }
+        if i % 3 == 1 {
+            fwd.push(Op::WV(vec![0, 0]));
+        }
+    }
+    fwd.push(Op::Shutdown);
     vec![
         // the stream under test: reader keeps reading
         StreamSpec {
             tag: 1,
             opener: 0,
-            opener_plan: EndPlan::Split(vec![Op::Burst(n, 1), Op::Shutdown], vec![Op::ReadToEof(8)]),
+            opener_plan: EndPlan::Split(fwd, vec![Op::ReadToEof(8)]),
             acceptor_plan: EndPlan::Split(back, vec![Op::ReadToEof(8)]),
         },
         // a stream whose reader is absent: its writer may block, nobody else may
